@@ -713,6 +713,200 @@ type ambRunner struct {
 	nm       *namer
 	maxT     int
 	sigTimes []int // signing times of the transactions of the DIDs in play
+	hist     []*hev // the transactions accepted so far (what they published): the reference history
+}
+
+// ---- reference history: the versions of a DID as DEFINED by the accepted transactions (RefDown / RefHeads / RefDeact of
+// DidStore.tla). Nothing here reads the store: which versions exist, in which order, what they contain and whether they are
+// deactivated follows from the published documents, the prevs and the lamport clocks of the accepted transactions alone.
+
+type hev struct {
+	did   string
+	lc    uint32
+	sig   time.Time
+	ref   hash.SHA256Hash
+	prevs []hash.SHA256Hash
+	doc   *did.Document
+}
+
+// refBefore: the causal order as far as the lamport clock tells it, then signing time, then ref (RFC 006)
+func refBefore(a, b *hev) bool {
+	if a.lc != b.lc {
+		return a.lc < b.lc
+	}
+	if !a.sig.Equal(b.sig) {
+		return a.sig.Before(b.sig)
+	}
+	return a.ref.Compare(b.ref) < 0
+}
+
+func (ar *ambRunner) record(c *ctx) {
+	var d did.Document
+	if err := json.Unmarshal(c.payload, &d); err != nil {
+		return
+	}
+	ar.hist = append(ar.hist, &hev{did: d.ID.String(), lc: c.tx.Clock(), sig: c.tx.SigningTime(), ref: c.tx.Ref(), prevs: c.tx.Previous(), doc: &d})
+}
+
+func (ar *ambRunner) eventsOf(didStr string) []*hev {
+	var out []*hev
+	for _, h := range ar.hist {
+		if h.did == didStr {
+			out = append(out, h)
+		}
+	}
+	return out
+}
+
+func refLast(evs []*hev) *hev {
+	var m *hev
+	for _, e := range evs {
+		if m == nil || refBefore(m, e) {
+			m = e
+		}
+	}
+	return m
+}
+
+// refVersion: the version "at e" = the transactions of the DID up to e; open branches = those no other one of them refers to
+type refVersion struct {
+	at    *hev
+	heads []*hev
+	deact bool // a deactivation is among the transactions the version consists of (also on a branch that is merged in)
+}
+
+func (ar *ambRunner) refVersionAt(e *hev) refVersion {
+	var down []*hev
+	for _, h := range ar.eventsOf(e.did) {
+		if h == e || refBefore(h, e) {
+			down = append(down, h)
+		}
+	}
+	v := refVersion{at: e}
+	for _, h := range down {
+		if len(h.doc.Controller) == 0 && len(h.doc.CapabilityInvocation) == 0 {
+			v.deact = true
+		}
+		open := true
+		for _, f := range down {
+			if intersects(f.prevs, []hash.SHA256Hash{h.ref}) {
+				open = false
+				break
+			}
+		}
+		if open {
+			v.heads = append(v.heads, h)
+		}
+	}
+	return v
+}
+
+func (v refVersion) hasSource(P []hash.SHA256Hash) bool {
+	for _, h := range v.heads {
+		if intersects([]hash.SHA256Hash{h.ref}, P) {
+			return true
+		}
+	}
+	return false
+}
+
+func (v refVersion) lists(thumb string) bool {
+	for _, h := range v.heads {
+		for _, t := range capInvThumbs(h.doc) {
+			if t == thumb {
+				return true
+			}
+		}
+	}
+	return false
+}
+
+func (v refVersion) controllers() map[string]bool {
+	out := map[string]bool{}
+	for _, h := range v.heads {
+		for _, c := range h.doc.Controller {
+			out[c.String()] = true
+		}
+	}
+	return out
+}
+
+// refAuthorised: the property statement evaluated on the reference history (state BEFORE the transaction): a creation must carry
+// the founding key; an update must be signed by a key listed for capabilityInvocation by a controller of a version it succeeds
+// (a version that has one of its prevs as source transaction; the latest one if there is none). A deactivated DID is nobody's
+// controller, not its own either; of another controller the versions the transaction refers to and the one in force at the
+// signing time count.
+func (ar *ambRunner) refAuthorised(c *ctx) (bool, string) {
+	signer := ar.w.thumbOf[c.signer]
+	var o map[string]any
+	if err := json.Unmarshal(c.payload, &o); err != nil {
+		return false, "payload is not JSON"
+	}
+	ids, _ := o["id"].(string)
+	if _, err := did.ParseDID(ids); err != nil {
+		return false, "no DID in payload"
+	}
+	if c.tx.SigningKey() != nil {
+		t, _ := jwkThumbprint(ar.w.keys[c.signer].JWK())
+		if "did:nuts:"+base58(t) == ids {
+			return true, "creation by the founding key"
+		}
+		return false, "embedded key is not the founding key of " + ids
+	}
+	P := c.tx.Previous()
+	H := ar.eventsOf(ids)
+	if len(H) == 0 {
+		return false, "no version to succeed"
+	}
+	var succ []refVersion
+	for _, e := range H {
+		if v := ar.refVersionAt(e); v.hasSource(P) {
+			succ = append(succ, v)
+		}
+	}
+	if len(succ) == 0 {
+		succ = []refVersion{ar.refVersionAt(refLast(H))}
+	}
+	why := "signing key is not a capabilityInvocation key of any controller of the succeeded version"
+	for _, v := range succ {
+		ctrl := v.controllers()
+		if len(ctrl) == 0 || ctrl[ids] {
+			if v.lists(signer) {
+				if !v.deact {
+					return true, "own capabilityInvocation key of the succeeded version"
+				}
+				why = "the succeeded version is deactivated (a deactivation is among the transactions it consists of): its own keys authorise nothing"
+			}
+		}
+		for cs := range ctrl {
+			if cs == ids {
+				continue
+			}
+			Hc := ar.eventsOf(cs)
+			var known []refVersion
+			var old []*hev
+			for _, w := range Hc {
+				if wv := ar.refVersionAt(w); wv.hasSource(P) {
+					known = append(known, wv)
+				}
+				if !w.sig.After(c.tx.SigningTime()) {
+					old = append(old, w)
+				}
+			}
+			if len(old) > 0 {
+				known = append(known, ar.refVersionAt(refLast(old)))
+			}
+			for _, wv := range known {
+				if wv.lists(signer) {
+					if !wv.deact {
+						return true, "capabilityInvocation key of controller " + ar.nm.didLabel(cs)
+					}
+					why = "controller " + ar.nm.didLabel(cs) + " is deactivated in the version referred to / in force: its keys authorise nothing"
+				}
+			}
+		}
+	}
+	return false, why
 }
 
 type snap struct {
@@ -785,48 +979,6 @@ func (ar *ambRunner) snapshot(n *node, refs map[string]hash.SHA256Hash, hashes m
 	return s
 }
 
-type version struct {
-	doc *did.Document
-	md  *resolver.DocumentMetadata
-}
-
-// versions enumerates the stored versions of a DID through the public API (by source transaction, by previous hash, latest)
-func (ar *ambRunner) versions(n *node, id did.DID, refs []hash.SHA256Hash) []version {
-	var out []version
-	seen := map[string]bool{}
-	add := func(d *did.Document, m *resolver.DocumentMetadata, err error) *resolver.DocumentMetadata {
-		if err != nil {
-			return nil
-		}
-		var ss []string
-		for _, s := range m.SourceTransactions {
-			ss = append(ss, s.String())
-		}
-		sort.Strings(ss)
-		k := m.Hash.String() + "|" + strings.Join(ss, ",")
-		if !seen[k] {
-			seen[k] = true
-			out = append(out, version{d, m})
-		}
-		return m
-	}
-	m := add(n.store.Resolve(id, &resolver.ResolveMetadata{AllowDeactivated: true}))
-	for i := 0; i < 16 && m != nil && m.PreviousHash != nil; i++ {
-		h := *m.PreviousHash
-		m = add(n.store.Resolve(id, &resolver.ResolveMetadata{AllowDeactivated: true, Hash: &h}))
-	}
-	for _, r := range refs {
-		r := r
-		add(n.store.Resolve(id, &resolver.ResolveMetadata{AllowDeactivated: true, SourceTransaction: &r}))
-	}
-	// two versions with the same content have the same hash and hide each other in the hash chain: also ask by time
-	for _, tm := range ar.sigTimes {
-		t := sigTime(tm)
-		add(n.store.Resolve(id, &resolver.ResolveMetadata{AllowDeactivated: true, ResolveTime: &t}))
-	}
-	return out
-}
-
 func intersects(a []hash.SHA256Hash, b []hash.SHA256Hash) bool {
 	for _, x := range a {
 		for _, y := range b {
@@ -836,71 +988,6 @@ func intersects(a []hash.SHA256Hash, b []hash.SHA256Hash) bool {
 		}
 	}
 	return false
-}
-
-// refAuthorised: the property statement evaluated on the real prior documents (state BEFORE the transaction).
-func (ar *ambRunner) refAuthorised(n *node, c *ctx, accepted []hash.SHA256Hash) (bool, string) {
-	signer := ar.w.thumbOf[c.signer]
-	var o map[string]any
-	if err := json.Unmarshal(c.payload, &o); err != nil {
-		return false, "payload is not JSON"
-	}
-	ids, _ := o["id"].(string)
-	id, err := did.ParseDID(ids)
-	if err != nil {
-		return false, "no DID in payload"
-	}
-	if c.tx.SigningKey() != nil {
-		// creation: the DID is the thumbprint of the embedded key (which is the key that signed: checked by the DAG)
-		t, _ := jwkThumbprint(ar.w.keys[c.signer].JWK())
-		if "did:nuts:"+base58(t) == ids {
-			return true, "creation by the founding key"
-		}
-		return false, "embedded key is not the founding key of " + ids
-	}
-	P := c.tx.Previous()
-	vs := ar.versions(n, *id, accepted)
-	if len(vs) == 0 {
-		return false, "no version to succeed"
-	}
-	var succ []version
-	for _, v := range vs {
-		if intersects(v.md.SourceTransactions, P) {
-			succ = append(succ, v)
-		}
-	}
-	if len(succ) == 0 {
-		succ = vs[:1] // latest
-	}
-	has := func(d *did.Document) bool {
-		for _, t := range capInvThumbs(d) {
-			if t == signer {
-				return true
-			}
-		}
-		return false
-	}
-	for _, v := range succ {
-		if selfControlled(v.doc) && has(v.doc) {
-			return true, "own capabilityInvocation key of the succeeded version"
-		}
-		for _, cdid := range v.doc.Controller {
-			if cdid.Equals(v.doc.ID) {
-				continue
-			}
-			for _, wv := range ar.versions(n, cdid, accepted) {
-				upd := wv.md.Created
-				if wv.md.Updated != nil {
-					upd = *wv.md.Updated
-				}
-				known := intersects(wv.md.SourceTransactions, P) || !upd.After(c.tx.SigningTime())
-				if known && !wv.md.Deactivated && has(wv.doc) {
-					return true, "capabilityInvocation key of controller " + ar.nm.didLabel(cdid.String())
-				}
-			}
-		}
-	}
-	return false, "signing key is not a capabilityInvocation key of any controller of the succeeded version"
 }
 
 // receive runs receiveNow under a watchdog: code that panicked inside a store transaction may leave the store locked
@@ -1000,7 +1087,7 @@ func (ar *ambRunner) run(sc script) (res result) {
 		variant := strings.HasPrefix(df, "ok@")
 		auth, why := true, "not evaluated for defective documents"
 		if df == "none" || variant {
-			auth, why = ar.refAuthorised(n, c, accepted)
+			auth, why = ar.refAuthorised(c)
 		}
 		wf, wfWhy := refWellFormed(c.payload)
 		if wf != (df == "none" || variant) {
@@ -1025,6 +1112,7 @@ func (ar *ambRunner) run(sc script) (res result) {
 			}
 			accepted = append(accepted, c.tx.Ref())
 			refs[label] = c.tx.Ref()
+			ar.record(c)
 		case "panic":
 			viol(violation{Kind: "panic", Defect: df, Tx: tname, Step: stepNo, Detail: detail})
 			fallthrough
@@ -1086,6 +1174,7 @@ func (ar *ambRunner) run(sc script) (res result) {
 			return err
 		}
 		accepted = nil
+		ar.hist = nil
 		cur = snap{}
 		for k := range refs {
 			delete(refs, k)
@@ -1114,6 +1203,7 @@ func (ar *ambRunner) run(sc script) (res result) {
 				}
 				accepted = append(accepted, c.tx.Ref())
 				refs[s.T+"/"+s.Df] = c.tx.Ref()
+				ar.record(c)
 				trace = append(trace, map[string]any{"ev": "recv", "t": s.T, "df": s.Df, "res": "accepted", "quiet": true})
 			}
 		}
